@@ -40,6 +40,8 @@ def regen(ctx):
     from translate import c20_statemachine, c20_datapath
     ctx.write_gen('C20MuxEff', c20_statemachine.translate(ctx.repo))
     ctx.write_gen('C20DataPath', c20_datapath.translate(ctx.repo))
+    from translate import c20_atreaders
+    ctx.write_gen('C20AtReaders', c20_atreaders.translate(ctx.repo))
     ctx.extra['ag_handlers'] = len(info['handlers'])
     ctx.extra['ag_skeleton_notes'] = info['notes']
     _STATE['handlers'] = info['handlers']
@@ -91,7 +93,7 @@ def run_virtual(coro):
 
 
 # =========================================================================== one Coq evaluation per run
-ALL_MODELS = ['Model.Rfcomm', 'Model.RfcommMux', 'Model.RfcommSm', 'Model.RfcommSm2', 'Model.RfcommRxQueue', 'Model.HfpSlc', 'Model.AtSkeleton',
+ALL_MODELS = ['Model.Rfcomm', 'Model.RfcommMux', 'Model.RfcommSm', 'Model.RfcommSm2', 'Model.RfcommRxQueue', 'Model.AtFramer', 'Model.HfpSlc', 'Model.AtSkeleton',
               'Gen.C20Consts', 'Gen.C20AgSkeleton']
 
 
@@ -1026,6 +1028,56 @@ def e2e_multi_impl(order):
     return run_virtual(one())
 
 
+def e2e_hfp_impl(mfs):
+    """two real Devices on a LocalLink, rfcomm.Client / Server with the given frame size, real
+    HfProtocol against an AG that writes all result codes of a command at once"""
+    async def one():
+        from tests.test_utils import TwoDevices
+        from bumble import rfcomm, hfp
+        devices = TwoDevices()
+        await devices.setup_connection()
+        acc = asyncio.get_running_loop().create_future()
+        server = rfcomm.Server(devices.devices[0])
+        channel = server.listen(acc.set_result, max_frame_size=mfs)
+        mux = await rfcomm.Client(devices.connections[1]).start()
+        dlc_hf = await mux.open_dlc(channel, max_frame_size=mfs)
+        dlc_ag = await acc
+        HF, AG = hfp.HfFeature, hfp.AgFeature
+        hf = hfp.HfProtocol(dlc_hf, hfp.HfConfiguration(
+            [HF.CODEC_NEGOTIATION, HF.THREE_WAY_CALLING, HF.HF_INDICATORS], [hfp.HfIndicator.BATTERY_LEVEL],
+            [hfp.AudioCodec.CVSD, hfp.AudioCodec.MSBC]))
+        ag = batching_ag_class()(dlc_ag, hfp.AgConfiguration(
+            [AG.CODEC_NEGOTIATION, AG.THREE_WAY_CALLING, AG.HF_INDICATORS],
+            [hfp.AgIndicatorState.call(), hfp.AgIndicatorState.callsetup(), hfp.AgIndicatorState.signal()],
+            [hfp.HfIndicator.BATTERY_LEVEL, hfp.HfIndicator.ENHANCED_SAFETY],
+            [hfp.CallHoldOperation.ADD_HELD_CALL, hfp.CallHoldOperation.RELEASE_SPECIFIC_CALL], []))
+        done = []
+        ag.on('slc_complete', lambda: done.append(1))
+        try:
+            await asyncio.wait_for(hf.initiate_slc(), 10)
+        except Exception as e:
+            return f'initialisation failed with {type(e).__name__}'
+        if len(done) != 1:
+            return f'AG emitted slc_complete {len(done)} times'
+        if [i.current_status for i in hf.ag_indicators] != [i.current_status for i in ag.ag_indicators]:
+            return 'indicator values differ'
+        return None
+    return run_virtual(one())
+
+
+def run_e2e_hfp(ctx):
+    for mfs in ([25, 27, 33, 61] if ctx.quick() else list(range(23, 71, 3)) + [25, 27, 33, 61]):
+        try:
+            bad = e2e_hfp_impl(mfs)
+        except Exception as e:
+            bad = f'set-up failed with {type(e).__name__}'
+        ctx.case(('e2e_hfp', mfs), True, None)
+        ctx.count('e2e.hfp_cases')
+        if bad:
+            ctx.violation('hfp:slc', f'two-device HFP over RFCOMM, max frame size {mfs}, batching AG: {bad}',
+                          {'kind': 'e2e_hfp', 'mfs': mfs})
+
+
 E2E_MULTI_ORDERS = ['close-then-open', 'open-then-close', 'close-then-open-responder', 'open-then-close-responder']
 
 
@@ -1234,6 +1286,166 @@ def run_pn(ctx, batch):
     batch.add(exprs, compare)
 
 
+# =========================================================================== AT readers and chunking
+def batching_ag_class():
+    """An AG that hands all the result codes concluding one command to RFCOMM in ONE write
+    (legal and common): send_response is buffered while a received command is being handled."""
+    from bumble import hfp
+
+    class BatchingAg(hfp.AgProtocol):
+        _batch = None
+
+        def _read_at(self, data):
+            self._batch = []
+            try:
+                super()._read_at(data)
+            finally:
+                out, self._batch = self._batch, None
+                if out:
+                    self.dlc.write(''.join(out))
+
+        def send_response(self, response):
+            if self._batch is None:
+                super().send_response(response)
+            else:
+                self._batch.append(f'\r\n{response}\r\n')
+    return BatchingAg
+
+
+def all_chunkings(rng, data, limit_splits=None):
+    n = len(data)
+    out = [[data]]
+    splits = list(range(1, n))
+    if limit_splits is not None and len(splits) > limit_splits:
+        # always keep the cuts next to a CR or LF
+        near = [i for i in splits if data[i - 1] in (13, 10) or data[i] in (13, 10)]
+        rest = [i for i in splits if i not in near]
+        splits = sorted(set(near + rng.shuffle(rest)[:max(0, limit_splits - len(near))]))
+    out += [[data[:i], data[i:]] for i in splits]
+    out.append([data[i:i + 1] for i in range(n)])
+    for _ in range(5):
+        cuts = sorted(set(rng.below(n + 1) for _ in range(rng.range(1, 8))))
+        prev, ch = 0, []
+        for c in cuts + [n]:
+            ch.append(data[prev:c])
+            prev = c
+        out.append(ch)
+    return out
+
+
+def reader_run(which, chunks):
+    """feed the chunks to a real HfProtocol / AgProtocol _read_at; returns (raw lines handed to
+    the parser, what was dispatched, leftover read_buffer, escaped exception)"""
+    async def main():
+        from bumble import hfp
+        pair = Pair()
+        await pair.connect()
+        da, db = await pair.open(1, (1000, 7), (1000, 7))
+        raw = []
+        escaped = None
+        if which == 'hf':
+            obj = hfp.HfProtocol(da, hfp.HfConfiguration([], [], []))
+            obj.pending_command = 'AT+CIND=?'
+            cls = hfp.AtResponse
+        else:
+            conf = hfp.AgConfiguration([f for f in hfp.AgFeature], [hfp.AgIndicatorState.call(), hfp.AgIndicatorState.signal()],
+                                       [hfp.HfIndicator.BATTERY_LEVEL], [hfp.CallHoldOperation.ADD_HELD_CALL], [])
+            obj = hfp.AgProtocol(db, conf)
+            written = []
+            db.write = lambda d: written.append(d if isinstance(d, str) else bytes(d).decode('latin-1'))
+            cls = hfp.AtCommand
+        orig = cls.__dict__['parse_from']
+
+        def spy(c, buffer):
+            raw.append(bytes(buffer))
+            return orig.__func__(c, buffer)
+        cls.parse_from = classmethod(spy)
+        try:
+            for ch in chunks:
+                try:
+                    obj._read_at(bytes(ch))
+                except Exception as e:
+                    escaped = type(e).__name__
+        finally:
+            cls.parse_from = orig
+        if which == 'hf':
+            disp = [['r', r.code, repr(r.parameters)] for r in list(obj.response_queue._queue)] + \
+                   [['u', r.code, repr(r.parameters)] for r in list(obj.unsolicited_queue._queue) if r is not None]
+        else:
+            disp = written
+        return raw, disp, bytes(obj.read_buffer), escaped
+    return run_virtual(main())
+
+
+HF_STREAMS = [
+    b'\r\n+BRSF: 1537\r\n\r\nOK\r\n',
+    b'\r\n+CIND: ("call",(0-1)),("callsetup",(0-3)),("signal",(0-5))\r\n\r\nOK\r\n\r\n+CIND: 0,0,3\r\n\r\nOK\r\n\r\nOK\r\n',
+    b'\r\n+CHLD: (0,1,1x,2,2x,3,4)\r\n\r\nOK\r\n\r\nOK\r\n\r\n+BIND: (1,2)\r\n\r\nOK\r\n\r\n+BIND: 1,1\r\n\r\n+BIND: 2,0\r\n\r\nOK\r\n',
+    b'\r\n+CIEV: 1,1\r\n\r\nRING\r\n\r\n+CLIP: "123456",129\r\n\r\n+BCS: 2\r\n\r\n+VGS: 7\r\n\r\nERROR\r\n\r\n+CME ERROR: 4\r\n',
+    b'\r\n\r\nOK\r\n\r\r\nX\rY\r\n\n\r\n+VGS: (1\r\n\r\n\xff\r\nOK\r\n\r',
+    b'OK\r\n\r\n\r\n\r\nOK\r\n+CIEV: 2,0\r',
+]
+AG_STREAMS = [
+    b'AT+BRSF=959\rAT+BAC=1,2\rAT+CIND=?\rAT+CIND?\rAT+CMER=3,,,1\rAT+CHLD=?\rAT+BIND=1,2\rAT+BIND=?\rAT+BIND?\r',
+    b'ATA\rATD123;\rAT+CHUP\rAT+CLCC\rAT+VGS=5\rAT+BCS=2\rAT+CMEE=1\rAT+CHLD=9\r',
+    b'\rAT+FOO\r\r\nAT+VGS=1\rAT+VGS=(1\r\xffAT\rAT+CMEE=1,2,3\rAT+VG',
+]
+
+
+def run_readers(ctx, rng, batch):
+    """the real readers under every 2-chunk split, 1-byte chunks and random chunkings: the lines
+    handed to the parser, what is dispatched and the leftover buffer must not depend on the cut"""
+    exprs, expect = [], []
+    for which, streams in (('hf', HF_STREAMS), ('ag', AG_STREAMS)):
+        for si, data in enumerate(streams):
+            ref = reader_run(which, [data])
+            chunkings = all_chunkings(rng, data, None if not ctx.quick() or len(data) < 90 else 60)
+            for k, ch in enumerate(chunkings):
+                got = reader_run(which, ch) if k else ref
+                ctx.case(('reader', which, si, tuple(len(c) for c in ch)), len(ch) > 1, None)
+                ctx.count(f'readers.{which}.chunkings')
+                if got != ref:
+                    what = ('lines handed to the parser' if got[0] != ref[0] else 'dispatched items' if got[1] != ref[1]
+                            else 'leftover buffer' if got[2] != ref[2] else 'escaped exception')
+                    ctx.violation(f'{"hfp" if which == "hf" else "ag"}:reader-chunking',
+                                  f'{which.upper()} _read_at: {what} depend on the chunking: stream {data[:40]!r}... cut as '
+                                  f'{[len(c) for c in ch][:12]}: {got[0][-2:]!r} / leftover {got[2]!r} instead of '
+                                  f'{ref[0][-2:]!r} / {ref[2]!r}',
+                                  {'kind': 'reader', 'which': which, 'chunks': [bytes(c).hex() for c in ch]})
+            # model: the single feed, the 1-byte chunking and a few splits
+            sample = [chunkings[0], chunkings[-6]] + chunkings[1:len(chunkings) - 6:max(1, (len(chunkings) - 7) // 6)][:7]
+            for ch in sample:
+                exprs.append(f'feed_chunks {which}_reader [] {coq_list([list(c) for c in ch])}')
+                expect.append((which, si, ch, ref))
+
+    def compare(model):
+        for (which, si, ch, ref), m in zip(expect, model):
+            lines, rest = m
+            ml = [bytes(l) for l in lines]
+            if ml != ref[0] or bytes(rest) != ref[2]:
+                ctx.disagree(f'{which} AT reader framing', {'stream': si, 'chunks': [len(c) for c in ch]},
+                             [[x.hex() for x in ml], bytes(rest).hex()], [[x.hex() for x in ref[0]], ref[2].hex()])
+            ctx.count('readers.model_cases')
+    batch.add(exprs, compare)
+
+
+def gen_slc_sweep_cases(rng, sizes):
+    """full-feature SLC + post-SLC exchanges for every frame size, with an AG that batches the
+    result codes of a command into one write (and, for some sizes, the stock AG)"""
+    from bumble import hfp
+    out = []
+    for i, mfs in enumerate(sizes):
+        c = gen_slc_case(rng, 7, 7)
+        c['mfs'] = mfs
+        c['batch'] = True
+        out.append(c)
+        if i % 6 == 0:
+            c2 = dict(c)
+            c2['batch'] = False
+            out.append(c2)
+    return out
+
+
 # =========================================================================== HFP SLC
 def _hfp_enums():
     from bumble import hfp
@@ -1303,8 +1515,9 @@ def run_slc_impl(case):
         names, ops = _hfp_enums()
         pair = Pair(auto=True)
         await pair.ma.connect()
-        pair.accept_cfg[1] = (1000, 7)
-        da = await pair.ma.open_dlc(1, 1000, 7)
+        mfs = case.get('mfs', 1000)
+        pair.accept_cfg[1] = (mfs, 7)
+        da = await pair.ma.open_dlc(1, mfs, 7)
         db = pair.accepted[0]
         hf_conf = hfp.HfConfiguration([hfp.HfFeature(f) for f in case['hf_feat']],
                                       [hfp.HfIndicator(i) for i in case['hf_inds']],
@@ -1315,7 +1528,7 @@ def run_slc_impl(case):
             [hfp.HfIndicator(i) for i in case['ag_hf_inds']],
             [ops[o] for o in case['chld']], [])
         hf = hfp.HfProtocol(da, hf_conf)
-        ag = hfp.AgProtocol(db, ag_conf)
+        ag = (batching_ag_class() if case.get('batch') else hfp.AgProtocol)(db, ag_conf)
         to_ag, to_hf = bytearray(), bytearray()
         ag_sink, hf_sink = db.sink, da.sink
         db.sink = lambda data: (to_ag.extend(data), ag_sink(data))
@@ -1861,6 +2074,10 @@ def run(ctx):
         'disconnects of different links close together, plus EVERY 3-label (thorough: 5-label) sequence over open / '
         'disconnect by either end / deliveries after a link is up; non-trivial = an open and a close were in flight '
         'at the same time; surviving links then carry 2500/1700 bytes. '
+        'readers: real HfProtocol._read_at / AgProtocol._read_at fed response / command streams (every SLC step, batched '
+        'results, unsolicited codes, stray delimiters, malformed lines) under every 2-chunk split (quick: the cuts next to '
+        'CR / LF plus a sample), 1-byte chunks and random chunkings; SLC sweep: full-feature SLC + post-SLC exchanges for '
+        'frame sizes 23..70 and a few larger with an AG that writes all result codes of a command at once. '
         'slc: full product of the three branch-driving feature bits on each side (64 combinations) x random other '
         'bits, indicator lists (0-5 entries), codec lists, call-hold sets (0-7), AG indicator lists with contiguous / '
         'single / sparse value sets; non-trivial = completed with more than four commands. ag: every _on_* handler x '
@@ -1924,10 +2141,17 @@ def run(ctx):
         for hb in range(8):
             for ab in range(8):
                 slc_cases.append(gen_slc_case(r, hb, ab))
+    sizes = list(range(23, 71)) + [100, 127, 128, 255, 1000]
+    if ctx.quick():
+        # every size from 23 to 70 in two quick runs' worth: all odd / all even by seed, plus the
+        # sizes the C20-c demo names
+        sizes = sorted(set([m for m in sizes if m % 2 == ctx.seed % 2] + [25, 27, 33, 61]))
+    slc_cases += gen_slc_sweep_cases(rng.fork('sweep'), sizes)
     run_slc(ctx, slc_cases, batch)
+    run_readers(ctx, rng.fork('readers'), batch)
     # ---- AG final result codes
     for c in corpus:
-        if c['replay']['kind'] == 'ag':
+        if c['replay']['kind'] in ('ag', 'reader'):
             replay_one(ctx, c['replay'], report=True)
             ctx.case(('corpus', json.dumps(c['replay'], sort_keys=True)), True, None)
             ctx.count('ag.corpus')
@@ -1937,6 +2161,7 @@ def run(ctx):
     # ---- end to end
     run_e2e(ctx, rng.fork('e2e'), ctx.n(4, 40))
     run_e2e_multi(ctx)
+    run_e2e_hfp(ctx)
 
 
 def search(ctx):
@@ -2011,6 +2236,18 @@ def replay_one(ctx, r, report=False):
         trace, bad = run_sm2_impl(r['labels'])
         verdict = bad
         sig = 'rfcomm:multi-teardown'
+    elif r['kind'] == 'e2e_hfp':
+        bad = e2e_hfp_impl(r['mfs'])
+        if bad:
+            verdict = bad
+            sig = 'hfp:slc'
+    elif r['kind'] == 'reader':
+        chunks = [bytes.fromhex(c) for c in r['chunks']]
+        ref = reader_run(r['which'], [b''.join(chunks)])
+        got = reader_run(r['which'], chunks)
+        if got != ref:
+            verdict = f"{r['which']} _read_at: lines {got[0]!r} leftover {got[2]!r} instead of {ref[0]!r} / {ref[2]!r}"
+            sig = ('hfp' if r['which'] == 'hf' else 'ag') + ':reader-chunking'
     elif r['kind'] == 'pn':
         outcome, oa, ob, problem = run_pn_impl(r['ini'], r['rsp'], r['mtu_i'], r['mtu_r'])
         if problem:
